@@ -1010,5 +1010,36 @@ func (g *Gen) Template(e *Env) []*TNode {
 	}
 	ns := g.Nodes(scopeOf(e), 0, 8)
 	g.fixErrors(ns)
+	if g.r.Chance(0.02) {
+		// a long flat page (100..260 top-level nodes), sometimes with several faulty tags far
+		// apart: which error is reported must not depend on anything but the text
+		sc := scopeOf(e)
+		k := g.r.Range(100, 260)
+		var bad []int
+		if g.r.Chance(0.5) {
+			for i, m := 0, g.r.Range(2, 4); i < m; i++ {
+				bad = append(bad, g.r.Intn(k))
+			}
+		}
+		for i := 0; i < k; i++ {
+			switch {
+			case intsContain(bad, i):
+				ns = append(ns, &TNode{K: "tag", S: pick(g.r, []string{"no_such_tag", "nope", "assign = 3", "cycle", "for x", "unknown_tag arg"}) + fmt.Sprint(i%7)})
+			case i%3 == 0:
+				ns = append(ns, &TNode{K: "obj", S: pick(g.r, []string{g.numAtom(sc), g.strAtom(sc), g.intLit()})})
+			default:
+				ns = append(ns, &TNode{K: "text", S: pick(g.r, []string{"x", " ", "line\n", "."})})
+			}
+		}
+	}
 	return ns
+}
+
+func intsContain(l []int, x int) bool {
+	for _, v := range l {
+		if v == x {
+			return true
+		}
+	}
+	return false
 }
